@@ -46,8 +46,9 @@ def pats_for(ty, thorough):
     return keep
 
 
-def check_type(chk, F, ty, thorough, dual_only=False):
-    """dual_only: only the forms whose operands are all dual numbers (owned/borrowed + - * /, compound assignment, Neg, Inv)"""
+def check_type(chk, F, ty, thorough, dual_only=False, also=()):
+    """dual_only: only the forms whose operands are all dual numbers (owned/borrowed + - * /, compound assignment, Neg, Inv), plus the
+    forms of the traits named in `also` (those the dependent code calls: resolved callees)"""
     pats = presence_patterns(ty)
     for imp in F.impls.values():
         if F.adt_name(imp["self"]) != ty or not imp.get("trait"):
@@ -61,7 +62,7 @@ def check_type(chk, F, ty, thorough, dual_only=False):
         rhs_scalar = rhs_t is not None and rhs_t["k"] == "param"
         form = "%s%s<%s%s>" % ("&" if self_ref else "", tr, "&" if rhs_ref else "",
                                "Self" if rhs_dual else ("F" if rhs_scalar else (rhs_t or {}).get("s", "")))
-        if dual_only and not ((tr in OPS and rhs_dual) or (tr in ASSIGN and (rhs_dual or rhs_t is None)) or tr in ("Neg", "Inv")):
+        if dual_only and not ((tr in OPS and rhs_dual) or (tr in ASSIGN and (rhs_dual or rhs_t is None)) or tr in ("Neg", "Inv") or tr in also):
             continue
         if tr in OPS:
             meth, f = OPS[tr]
